@@ -7,9 +7,12 @@ use super::common::{array_borrowed, array_owned};
 use std::cell::Cell;
 
 fn filter_map<const N: usize, const BORROWED: bool>() {
+    filter_map_keep::<N, BORROWED>(kani::any())
+}
+
+fn filter_map_keep<const N: usize, const BORROWED: bool>(keep: [bool; N]) {
     let xs: [i64; N] = kani::any();
     let ys: [i64; N] = kani::any();
-    let keep: [bool; N] = kani::any();
     let vals: [LhsValue<'static>; N] = std::array::from_fn(|i| LhsValue::Int(xs[i]));
     let src = if BORROWED {
         array_borrowed(Type::Int, &vals[..])
@@ -93,4 +96,12 @@ fn array_filter_map_to__borrowed_n3() {
 #[kani::unwind(2)]
 fn array_filter_map_to__owned_n0() {
     filter_map::<0, false>()
+}
+
+/// Owned array, the FIRST of two elements is dropped (constant keep pattern).
+#[kani::proof]
+#[kani::stub(std::mem::drop, crate::lhs_types::verif_kani::common::mem_drop__releases_nothing_observable)]
+#[kani::unwind(3)]
+fn array_filter_map_to__owned_n2_first_dropped() {
+    filter_map_keep::<2, false>([false, true])
 }
